@@ -35,6 +35,19 @@ def diskOp (args : List String) : String :=
         let points := (List.range (es.length + 1)).map fun n => showRecover (DiskFS.crashAt fs k c1 c2 op n) ids
         (DiskFS.applyAll fs es, k + 2, outs ++ [" | ".intercalate points])) ([], 0, [])
       " ;; ".intercalate outs
+  | ["effects", ops] =>
+    -- the file-system effects of every operation of a history, in order, with what they touch
+    match (ops.splitOn ";").mapM parseDiskOp with
+    | none => "bad-op"
+    | some l =>
+      let showPath : DiskFS.Path → String := fun | .env _ => "env" | .mfile _ => "meta" | .tmp _ => "tmp"
+      let showEff : DiskFS.Effect → String := fun
+        | .create _ => "create" | .append _ => "append" | .rename _ dst _ => "rename:" ++ showPath dst | .unlink p => "unlink:" ++ showPath p
+      let (_, _, outs) := l.foldl (fun (acc : DiskFS.FS × Nat × List String) (op, c1, c2) =>
+        let (fs, k, outs) := acc
+        let es := DiskFS.effectsOf fs k c1 c2 op
+        (DiskFS.applyAll fs es, k + 2, outs ++ [if es.isEmpty then "-" else ",".intercalate (es.map showEff)])) ([], 0, [])
+      " ;; ".intercalate outs
   | _ => "bad-op"
 
 end Slimta.Driver
